@@ -42,8 +42,9 @@ def compliance_dict_helper(
     # Build fake dictionary so that njit can compile the function
     fake_index = list(tidal_frequencies.keys())[0]
     fake_freq = tidal_frequencies[fake_index]
-    compliance = live_inputs[0]
-    complex_compliance_by_tidal_freq = {(-100, -100): fake_freq * compliance * (1. + 1.j)}
+    # The fake entry must have the type of a real entry: the compliance can be a float while another live input
+    #    (e.g., a temperature-dependent viscosity) is an array, in which case the function returns arrays.
+    complex_compliance_by_tidal_freq = {(-100, -100): compliance_func(fake_freq, *live_inputs, *inputs)}
 
     # Find the complex compliance for each frequency
     for freq_sig, freq in tidal_frequencies.items():
